@@ -396,6 +396,7 @@ def r1_name_result(sig: Text):
     """-> T   becomes   -> (r: T)"""
     code = code_mask(sig.t)
     depth = 0
+    angle = 0
     i = 0
     arrow = -1
     # the fn-level arrow is the one at paren depth 0 after the parameter list
@@ -406,9 +407,15 @@ def r1_name_result(sig: Text):
                 depth += 1
             elif ch in ')]':
                 depth -= 1
-            elif sig.t.startswith('->', i) and depth == 0:
-                arrow = i
-                break
+            elif sig.t.startswith('->', i):
+                if depth == 0 and angle == 0:
+                    arrow = i
+                    break
+                i += 1   # an arrow inside a generic bound (`F: FnOnce() -> T`): skip its `>`
+            elif ch == '<':
+                angle += 1
+            elif ch == '>':
+                angle -= 1
         i += 1
     if arrow < 0:
         return False
@@ -1007,10 +1014,16 @@ class Unit:
         self.lines.extend(text.split('\n'))
         return start, len(self.lines)
 
-    def prelude(self, *files):
+    def prelude(self, *files, subst=None):
+        """subst: {file: [(old, new), ..]} - a unit may state one of the assumed contracts differently (the replaced text must be
+        there, and the new text carries its own A- id)"""
         for f in files:
             p = os.path.join(PRELUDE_DIR, f)
             txt = open(p).read()
+            for old, new in (subst or {}).get(f, []):
+                if old not in txt:
+                    raise Infra('prelude %s: text to restate not found: %r' % (f, old[:60]))
+                txt = txt.replace(old, new)
             self.prelude_files.append(f)
             a, b = self._emit('// ---- prelude: %s (assumed contracts) ----\n' % f + txt.rstrip('\n'))
             self.prelude_ranges.append((a, b))
@@ -1028,6 +1041,9 @@ class Unit:
             line = self.lines[ln - 1]
             m = re.search(r'\bproof\s+fn\s+(\w+)', line)
             if m:
+                rest = '\n'.join(self.lines[ln - 1:b])[m.end():]
+                if re.search(r'[;{]', rest) and re.search(r'[;{]', rest).group(0) == ';':
+                    continue   # a bodyless declaration (trait member): nothing to prove here
                 cur = m.group(1)
                 ob = '%s::lemma::%s' % (self.name, cur)
                 self.obligations[ob] = dict(props=props or self.props, kind='lemma', fn=cur, text=line.strip())
@@ -1187,6 +1203,9 @@ class Unit:
                 body.insert_before_line_of('S-hint', needle, HINT_OPEN + text + HINT_CLOSE, nthh)
             else:
                 body.insert_after_line_of('S-hint', needle, HINT_OPEN + text + HINT_CLOSE, nthh)
+        if getattr(self, 'every_body_start', None):
+            # a unit-wide proof hint (e.g. `broadcast use ..;`): put in front of every verified body
+            body_start = self.every_body_start + (' ' + body_start.lstrip() if body_start else '')
         if body_start:
             body.at_body_start(HINT_OPEN + body_start + HINT_CLOSE)
         sig.check_reversible()
